@@ -81,6 +81,16 @@ pub fn point(site: &str, a: u64, b: u64) {
 
 static EXITED: AtomicU64 = AtomicU64::new(0);
 
+/// number of threads of this process (hook-independent evidence that a background thread is gone)
+fn tasks() -> usize {
+    std::fs::read_dir("/proc/self/task").map(|d| d.count()).unwrap_or(usize::MAX)
+}
+/// "the background thread terminated": the exit point of `run()` was reported, or - should a change to the code have moved or
+/// dropped that hook - the process is back to the number of threads it had before the sink was built
+fn worker_gone(baseline: usize) -> bool {
+    EXITED.load(Ordering::SeqCst) > 0 || wait_until(Duration::from_secs(2), || EXITED.load(Ordering::SeqCst) > 0 || tasks() <= baseline)
+}
+
 // ------------------------------------------------------------------ aligned races
 /// Threads that reach the chosen hook point rendezvous there (spin barrier with a short timeout) and leave it at the same
 /// instant, so the few instructions that follow the point in the code under test run truly concurrently: a check-then-act
@@ -504,6 +514,7 @@ pub fn stress(a: &Args) {
         }
         tr().ev(json!({"ev":"reset","cap":cap_json(cap),"eh":eh,"run":run,"cfg":cfg}));
         EXITED.store(0, Ordering::SeqCst);
+        let base_tasks = tasks();
         let sh = new_shared(!gate_closed_first);
         sh.slow_us.store(slow, Ordering::Relaxed);
         let rs = seed.wrapping_mul(1000).wrapping_add(run);
@@ -643,7 +654,7 @@ pub fn stress(a: &Args) {
         }
         set_gate(&sh, true);
         let released = wait_until(Duration::from_secs(10), || sh.dropped.load(Ordering::SeqCst));
-        let exited = EXITED.load(Ordering::SeqCst) > 0;
+        let exited = worker_gone(base_tasks);
         tr().ev(json!({"ev":"end","released":released,"exited":exited}));
     }
     // ---- aligned capacity races (C10/C15/C08): the worker is held inside the wrapped sink, the queue has exactly one free
@@ -654,6 +665,7 @@ pub fn stress(a: &Args) {
         let nthr = 2 + (r % 2);
         tr().ev(json!({"ev":"reset","cap":cap as u64,"eh":false,"run":2000 + r,"aligned":true}));
         EXITED.store(0, Ordering::SeqCst);
+        let base_tasks = tasks();
         let sh = new_shared(false);
         let original = build_sink(&sh, Some(cap), false);
         do_emit(&original, 1, "a.held");
@@ -693,13 +705,14 @@ pub fn stress(a: &Args) {
             do_drop(s, h);
         }
         let released = wait_until(Duration::from_secs(10), || sh.dropped.load(Ordering::SeqCst));
-        tr().ev(json!({"ev":"end","released":released,"exited":EXITED.load(Ordering::SeqCst) > 0}));
+        tr().ev(json!({"ev":"end","released":released,"exited":worker_gone(base_tasks)}));
     }
     // ---- stalled increment (C15 "never wraps around", C20): a producer rests between try_send and incr_submitted while the
     // worker delivers the metric, so drained exceeds submitted for two milliseconds; a sampler reads the counters meanwhile
     for r in 0..a.num("stall-rounds", 6) {
         tr().ev(json!({"ev":"reset","cap":cap_json(None),"eh":false,"run":3000 + r,"stalled":true}));
         EXITED.store(0, Ordering::SeqCst);
+        let base_tasks = tasks();
         let sh = new_shared(true);
         let original = build_sink(&sh, None, false);
         set_align(3, 1);
@@ -726,7 +739,7 @@ pub fn stress(a: &Args) {
             do_drop(s, h);
         }
         let released = wait_until(Duration::from_secs(10), || sh.dropped.load(Ordering::SeqCst));
-        tr().ev(json!({"ev":"end","released":released,"exited":EXITED.load(Ordering::SeqCst) > 0}));
+        tr().ev(json!({"ev":"end","released":released,"exited":worker_gone(base_tasks)}));
     }
     // ---- high-contention phases (C15/C08 at quiescence): 8 producers x 20 000 emits on clones of one sink,
     // nothing logged per event: each producer counts its Ok results, the wrapped sink counts what it is handed.
@@ -897,6 +910,7 @@ pub fn replay(a: &Args) {
         let eh = b["eh"].as_bool().unwrap();
         tr().ev(json!({"ev":"reset","cap":capv,"eh":eh,"beh":nbeh,"behaviour":b.clone()}));
         EXITED.store(0, Ordering::SeqCst);
+        let base_tasks = tasks();
         let sh = new_shared(true);
         let outcomes: Arc<Mutex<HashMap<String, Out>>> = Arc::new(Mutex::new(HashMap::new()));
         let oc = outcomes.clone();
@@ -1191,7 +1205,7 @@ pub fn replay(a: &Args) {
             }
         }
         let released = wait_until(Duration::from_secs(10), || sh.dropped.load(Ordering::SeqCst));
-        let exited = EXITED.load(Ordering::SeqCst) > 0;
+        let exited = worker_gone(base_tasks);
         tr().ev(json!({"ev":"end","released":released,"exited":exited}));
     }
     cadence::verif::install(None);
